@@ -271,3 +271,666 @@ Proof.
 Qed.
 
 End RoundTrip.
+
+Lemma NoDup_app_intro_one : forall (A : Type) (M : list A) (x : A), ~ In x M -> NoDup M -> NoDup (M ++ [x]).
+Proof.
+  intros A M x; induction M as [|y r IH]; intros Hin Hnd; simpl.
+  - constructor; [intros []|constructor].
+  - inversion Hnd as [|? ? Hy Hr]; subst. constructor.
+    + intros Hc. apply in_app_or in Hc. destruct Hc as [Hc|[Hc|[]]]; [exact (Hy Hc)|].
+      subst. apply Hin; left; reflexivity.
+    + apply IH; [intros Hc; apply Hin; right; exact Hc|exact Hr].
+Qed.
+
+(* ---------- sharing: one VAL per distinct by-key object, dense keys, REF after VAL ---------- *)
+Section Events.
+Variable bk : string -> bool.
+
+Lemma jget_enc_f_absent : forall k f M, fhas k f = false -> jget k (fst (enc_f bk f M)) = None.
+Proof.
+  intros k f; induction f as [|k' v r IH]; intros M H; [reflexivity|].
+  simpl in H. apply orb_false_iff in H; destruct H as [H1 H2].
+  rewrite enc_f_eq. simpl. rewrite H1. apply IH; exact H2.
+Qed.
+
+Lemma own_event_typed : forall tag jf, reserved tag = false -> own_event (JFCons "cirq_type" (JStr tag) jf) = [].
+Proof.
+  intros tag jf Hr. apply reserved_false in Hr. destruct Hr as (H1 & H2 & _).
+  unfold own_event. simpl jget. destruct (jget "key" jf) as [[| z | | |]|]; try reflexivity.
+  rewrite H1, H2. reflexivity.
+Qed.
+
+Lemma own_event_val : forall k body,
+  own_event (JFCons "cirq_type" (JStr "VAL") (JFCons "key" (JNum k) (JFCons "val" body JFNil))) = [(true, k)].
+Proof. reflexivity. Qed.
+
+Lemma own_event_ref : forall k,
+  own_event (JFCons "cirq_type" (JStr "REF") (JFCons "key" (JNum k) JFNil)) = [(false, k)].
+Proof. reflexivity. Qed.
+
+Lemma own_event_plain : forall f M, fhas "cirq_type" f = false -> own_event (fst (enc_f bk f M)) = [].
+Proof. intros f M H. unfold own_event. rewrite jget_enc_f_absent by exact H. reflexivity. Qed.
+
+Lemma val_keys_app : forall a b, val_keys (a ++ b) = val_keys a ++ val_keys b.
+Proof. intros a b. unfold val_keys. rewrite filter_app, map_app. reflexivity. Qed.
+
+Lemma zseq_app : forall n s m, zseq s (n + m) = zseq s n ++ zseq (s + n) m.
+Proof.
+  induction n as [|n IH]; intros s m; simpl.
+  - rewrite Nat.add_0_r. reflexivity.
+  - rewrite IH. replace (S s + n) with (s + S n) by lia. reflexivity.
+Qed.
+
+(* the encoder only appends to the memo *)
+Lemma enc_extends_all :
+  (forall v M, exists ext, snd (enc bk v M) = M ++ ext) /\
+  (forall l M, exists ext, snd (enc_l bk l M) = M ++ ext) /\
+  (forall f M, exists ext, snd (enc_f bk f M) = M ++ ext).
+Proof.
+  apply value_mutind.
+  - intros M; exists []; simpl; rewrite app_nil_r; reflexivity.
+  - intros z M; exists []; simpl; rewrite app_nil_r; reflexivity.
+  - intros s M; exists []; simpl; rewrite app_nil_r; reflexivity.
+  - intros l IH M. destruct (IH M) as [e He]. exists e. simpl. destruct (enc_l bk l M); exact He.
+  - intros f IH M. destruct (IH M) as [e He]. exists e. simpl. destruct (enc_f bk f M); exact He.
+  - intros tag f IH M. simpl. destruct (bk tag).
+    + destruct (find_idx (VObj tag f) M).
+      * exists []; simpl; rewrite app_nil_r; reflexivity.
+      * destruct (IH (M ++ [VObj tag f])) as [e He]. exists ([VObj tag f] ++ e).
+        destruct (enc_f bk f (M ++ [VObj tag f])); simpl in *. rewrite He, <- app_assoc. reflexivity.
+    + destruct (IH M) as [e He]. exists e. destruct (enc_f bk f M); exact He.
+  - intros M; exists []; simpl; rewrite app_nil_r; reflexivity.
+  - intros v IHv r IHr M. rewrite enc_l_eq. simpl snd.
+    destruct (IHv M) as [e1 H1]. destruct (IHr (snd (enc bk v M))) as [e2 H2].
+    exists (e1 ++ e2). rewrite H2, H1, app_assoc. reflexivity.
+  - intros M; exists []; simpl; rewrite app_nil_r; reflexivity.
+  - intros k v IHv r IHr M. rewrite enc_f_eq. simpl snd.
+    destruct (IHv M) as [e1 H1]. destruct (IHr (snd (enc bk v M))) as [e2 H2].
+    exists (e1 ++ e2). rewrite H2, H1, app_assoc. reflexivity.
+Qed.
+
+Lemma ext_len : forall (M M' ext : list value), M' = M ++ ext -> List.length M' = List.length M + List.length ext.
+Proof. intros; subst; apply app_length. Qed.
+
+(* keys are dense: VAL keys appear in document order as |M|, |M|+1, ... *)
+Definition K_v (v : value) : Prop := wf v = true -> forall M,
+  val_keys (doc_events (fst (enc bk v M))) = zseq (List.length M) (List.length (snd (enc bk v M)) - List.length M).
+Definition K_l (l : vlist) : Prop := wf_l l = true -> forall M,
+  val_keys (doc_events_l (fst (enc_l bk l M))) = zseq (List.length M) (List.length (snd (enc_l bk l M)) - List.length M).
+Definition K_f (f : vfields) : Prop := wf_f f = true -> forall M,
+  val_keys (doc_events_f (fst (enc_f bk f M))) = zseq (List.length M) (List.length (snd (enc_f bk f M)) - List.length M).
+
+Lemma dense_seq : forall (M M1 M2 : list value) e1 e2 a b,
+  M1 = M ++ e1 -> M2 = M1 ++ e2 ->
+  a = zseq (List.length M) (List.length M1 - List.length M) ->
+  b = zseq (List.length M1) (List.length M2 - List.length M1) ->
+  a ++ b = zseq (List.length M) (List.length M2 - List.length M).
+Proof.
+  intros M M1 M2 e1 e2 a b H1 H2 Ha Hb. subst.
+  repeat rewrite app_length.
+  replace (List.length M + List.length e1 + List.length e2 - List.length M) with (List.length e1 + List.length e2) by lia.
+  replace (List.length M + List.length e1 - List.length M) with (List.length e1) by lia.
+  replace (List.length M + List.length e1 + List.length e2 - (List.length M + List.length e1)) with (List.length e2) by lia.
+  rewrite zseq_app. reflexivity.
+Qed.
+
+Lemma dense_all : (forall v, K_v v) /\ (forall l, K_l l) /\ (forall f, K_f f).
+Proof.
+  apply value_mutind; unfold K_v, K_l, K_f.
+  - intros _ M; simpl. rewrite Nat.sub_diag; reflexivity.
+  - intros z _ M; simpl. rewrite Nat.sub_diag; reflexivity.
+  - intros s _ M; simpl. rewrite Nat.sub_diag; reflexivity.
+  - intros l IH Hwf M. simpl in Hwf. specialize (IH Hwf M). simpl.
+    destruct (enc_l bk l M) as [jl M']; simpl in *. exact IH.
+  - intros f IH Hwf M. simpl in Hwf. apply andb_true_iff in Hwf; destruct Hwf as [Hk Hwf].
+    apply negb_true_iff in Hk. specialize (IH Hwf M). pose proof (own_event_plain f M Hk) as Hoe. simpl.
+    destruct (enc_f bk f M) as [jf M']; simpl in *. rewrite Hoe. simpl. exact IH.
+  - intros tag f IH Hwf M. simpl in Hwf.
+    apply andb_true_iff in Hwf; destruct Hwf as [Hwf Hwff].
+    apply andb_true_iff in Hwf; destruct Hwf as [Hres Hk].
+    apply negb_true_iff in Hres. apply negb_true_iff in Hk.
+    simpl enc. destruct (bk tag) eqn:Hbk.
+    + destruct (find_idx (VObj tag f) M) as [k|] eqn:Hfind.
+      * simpl. rewrite Nat.sub_diag. reflexivity.
+      * specialize (IH Hwff (M ++ [VObj tag f])).
+        destruct (proj2 (proj2 enc_extends_all) f (M ++ [VObj tag f])) as [e He].
+        destruct (enc_f bk f (M ++ [VObj tag f])) as [jf M2]; simpl in IH, He.
+        simpl fst; simpl snd. unfold val_json, typed_json.
+        cbn [doc_events doc_events_f]. rewrite own_event_val.
+        rewrite (own_event_typed tag jf Hres). simpl app. rewrite app_nil_r.
+        unfold val_keys at 1. simpl filter. simpl map. fold (val_keys (doc_events_f jf)).
+        rewrite IH. rewrite He. repeat rewrite app_length. simpl List.length.
+        replace (List.length M + 1 + List.length e - (List.length M + 1)) with (List.length e) by lia.
+        replace (List.length M + 1 + List.length e - List.length M) with (S (List.length e)) by lia.
+        simpl zseq. replace (List.length M + 1) with (S (List.length M)) by lia. reflexivity.
+    + specialize (IH Hwff M). simpl.
+      destruct (enc_f bk f M) as [jf M']; simpl in *.
+      rewrite (own_event_typed tag jf Hres). simpl. exact IH.
+  - intros _ M; simpl. rewrite Nat.sub_diag; reflexivity.
+  - intros v IHv r IHr Hwf M. simpl in Hwf. apply andb_true_iff in Hwf; destruct Hwf as [Hwv Hwr].
+    rewrite enc_l_eq. simpl fst; simpl snd. simpl doc_events_l. rewrite val_keys_app.
+    destruct (proj1 enc_extends_all v M) as [e1 H1].
+    destruct (proj1 (proj2 enc_extends_all) r (snd (enc bk v M))) as [e2 H2].
+    exact (dense_seq _ _ _ _ _ _ _ H1 H2 (IHv Hwv M) (IHr Hwr _)).
+  - intros _ M; simpl. rewrite Nat.sub_diag; reflexivity.
+  - intros k v IHv r IHr Hwf M. simpl in Hwf. apply andb_true_iff in Hwf; destruct Hwf as [Hwv Hwr].
+    rewrite enc_f_eq. simpl fst; simpl snd. simpl doc_events_f. rewrite val_keys_app.
+    destruct (proj1 enc_extends_all v M) as [e1 H1].
+    destruct (proj2 (proj2 enc_extends_all) r (snd (enc bk v M))) as [e2 H2].
+    exact (dense_seq _ _ _ _ _ _ _ H1 H2 (IHv Hwv M) (IHr Hwr _)).
+Qed.
+
+Theorem keys_dense : forall v, wf v = true ->
+  val_keys (doc_events (encode bk v)) = zseq 0 (n_keys bk v).
+Proof.
+  intros v Hwf. unfold encode, n_keys, encode_memo.
+  rewrite (proj1 dense_all v Hwf []). simpl List.length. rewrite Nat.sub_0_r. reflexivity.
+Qed.
+
+(* the memo never holds one object twice: one VAL per distinct by-key object *)
+Lemma nodup_all :
+  (forall v M, NoDup M -> NoDup (snd (enc bk v M))) /\
+  (forall l M, NoDup M -> NoDup (snd (enc_l bk l M))) /\
+  (forall f M, NoDup M -> NoDup (snd (enc_f bk f M))).
+Proof.
+  apply value_mutind.
+  - intros M H; exact H.
+  - intros z M H; exact H.
+  - intros s M H; exact H.
+  - intros l IH M H. simpl. specialize (IH M H). destruct (enc_l bk l M); exact IH.
+  - intros f IH M H. simpl. specialize (IH M H). destruct (enc_f bk f M); exact IH.
+  - intros tag f IH M H. simpl. destruct (bk tag).
+    + destruct (find_idx (VObj tag f) M) eqn:Hfind; [exact H|].
+      assert (Hnd : NoDup (M ++ [VObj tag f])).
+      { apply find_from_none in Hfind. apply NoDup_app_intro_one; assumption. }
+      specialize (IH _ Hnd). destruct (enc_f bk f (M ++ [VObj tag f])); exact IH.
+    + specialize (IH M H). destruct (enc_f bk f M); exact IH.
+  - intros M H; exact H.
+  - intros v IHv r IHr M H. rewrite enc_l_eq. simpl. apply IHr, IHv, H.
+  - intros M H; exact H.
+  - intros k v IHv r IHr M H. rewrite enc_f_eq. simpl. apply IHr, IHv, H.
+Qed.
+End Events.
+
+(* ---------- every REF is preceded, in hook order, by the completed VAL of the same key ---------- *)
+Section Refs.
+Variable bk : string -> bool.
+
+Definition rpre (n : nat) (M : list value) (done : list Z) : Prop :=
+  forall i x, nth_error M i = Some x -> ~ In (Z.of_nat i) done -> n < vsize x.
+Definition rpost (M : list value) (done : list Z) (M' : list value) (done' : list Z) : Prop :=
+  forall i x, nth_error M' i = Some x -> ~ In (Z.of_nat i) done' ->
+              nth_error M i = Some x /\ ~ In (Z.of_nat i) done.
+
+Lemma rpost_refl : forall M d, rpost M d M d.
+Proof. intros M d i x H1 H2; split; assumption. Qed.
+Lemma rpost_trans : forall M0 d0 M1 d1 M2 d2, rpost M0 d0 M1 d1 -> rpost M1 d1 M2 d2 -> rpost M0 d0 M2 d2.
+Proof. intros M0 d0 M1 d1 M2 d2 H1 H2 i x Hn Hd. destruct (H2 i x Hn Hd) as [A B]. exact (H1 i x A B). Qed.
+Lemma rpre_post : forall n M d M' d', rpre n M d -> rpost M d M' d' -> rpre n M' d'.
+Proof. intros n M d M' d' Hp H i x Hn Hd. destruct (H i x Hn Hd) as [A B]. exact (Hp i x A B). Qed.
+
+Lemma existsb_in : forall k done, In k done -> existsb (Z.eqb k) done = true.
+Proof. intros k done H. apply existsb_exists. exists k. split; [exact H|apply Z.eqb_refl]. Qed.
+
+Definition R_v (v : value) : Prop := wf v = true -> forall n M done, vsize v <= n -> rpre n M done ->
+  exists done', (forall rest, refs_ok done (hook_events (fst (enc bk v M)) ++ rest) = refs_ok done' rest)
+                /\ rpost M done (snd (enc bk v M)) done'.
+Definition R_l (l : vlist) : Prop := wf_l l = true -> forall n M done, lsize l <= n -> rpre n M done ->
+  exists done', (forall rest, refs_ok done (hook_events_l (fst (enc_l bk l M)) ++ rest) = refs_ok done' rest)
+                /\ rpost M done (snd (enc_l bk l M)) done'.
+Definition R_f (f : vfields) : Prop := wf_f f = true -> forall n M done, fsize f <= n -> rpre n M done ->
+  exists done', (forall rest, refs_ok done (hook_events_f (fst (enc_f bk f M)) ++ rest) = refs_ok done' rest)
+                /\ rpost M done (snd (enc_f bk f M)) done'.
+
+Lemma refs_all : (forall v, R_v v) /\ (forall l, R_l l) /\ (forall f, R_f f).
+Proof.
+  apply value_mutind; unfold R_v, R_l, R_f.
+  - intros _ n M d _ _. exists d; split; [reflexivity|apply rpost_refl].
+  - intros z _ n M d _ _. exists d; split; [reflexivity|apply rpost_refl].
+  - intros s _ n M d _ _. exists d; split; [reflexivity|apply rpost_refl].
+  - intros l IH Hwf n M d Hn Hp. simpl in Hwf, Hn.
+    destruct (IH Hwf n M d ltac:(lia) Hp) as (d' & Hr & Hpost).
+    simpl. destruct (enc_l bk l M) as [jl M']; simpl in *. exists d'. split; assumption.
+  - intros f IH Hwf n M d Hn Hp. simpl in Hwf, Hn.
+    apply andb_true_iff in Hwf; destruct Hwf as [Hk Hwf]. apply negb_true_iff in Hk.
+    destruct (IH Hwf n M d ltac:(lia) Hp) as (d' & Hr & Hpost).
+    pose proof (own_event_plain bk f M Hk) as Hoe.
+    simpl. destruct (enc_f bk f M) as [jf M']; simpl in *. exists d'. split; [|exact Hpost].
+    intros rest. rewrite Hoe, app_nil_r. apply Hr.
+  - intros tag f IH Hwf n M d Hn Hp. simpl in Hwf, Hn.
+    apply andb_true_iff in Hwf; destruct Hwf as [Hwf Hwff].
+    apply andb_true_iff in Hwf; destruct Hwf as [Hres Hk].
+    apply negb_true_iff in Hres. apply negb_true_iff in Hk.
+    simpl enc. destruct (bk tag) eqn:Hbk.
+    + destruct (find_idx (VObj tag f) M) as [k|] eqn:Hfind.
+      * apply find_idx_some in Hfind.
+        assert (Hin : In (Z.of_nat k) d).
+        { destruct (in_dec Z.eq_dec (Z.of_nat k) d) as [Hy|Hnot]; [exact Hy|].
+          specialize (Hp k _ Hfind Hnot). simpl in Hp. lia. }
+        exists d. split; [|apply rpost_refl]. intros rest.
+        simpl fst. unfold ref_json. cbn [hook_events hook_events_f]. rewrite own_event_ref.
+        simpl app. simpl refs_ok. rewrite (existsb_in _ _ Hin). reflexivity.
+      * set (v := VObj tag f) in *. set (k := List.length M).
+        assert (Hp1 : rpre (fsize f) (M ++ [v]) d).
+        { intros i x Hnth Hd. destruct (Nat.lt_ge_cases i (List.length M)) as [Hlt|Hge].
+          - rewrite nth_error_app1 in Hnth by exact Hlt. specialize (Hp i x Hnth Hd). lia.
+          - rewrite nth_error_app2 in Hnth by exact Hge.
+            destruct (i - List.length M) as [|m] eqn:Em; simpl in Hnth.
+            + inversion Hnth; subst x. unfold v; simpl. lia.
+            + destruct m; discriminate. }
+        destruct (IH Hwff (fsize f) (M ++ [v]) d (le_n _) Hp1) as (d2 & Hr2 & Hpost2).
+        destruct (proj2 (proj2 (enc_extends_all bk)) f (M ++ [v])) as [ext Hext].
+        destruct (enc_f bk f (M ++ [v])) as [jf M2] eqn:E; simpl in Hr2, Hpost2, Hext.
+        exists (Z.of_nat k :: d2). split.
+        { intros rest. simpl fst. unfold val_json, typed_json. cbn [hook_events hook_events_f].
+          rewrite own_event_val. rewrite (own_event_typed tag jf Hres).
+          simpl app. rewrite !app_nil_r. rewrite <- app_assoc. rewrite Hr2. reflexivity. }
+        simpl snd. intros i x Hnth Hd.
+        destruct (Nat.eq_dec i k) as [->|Hik].
+        { exfalso. apply Hd. left; reflexivity. }
+        assert (Hd2 : ~ In (Z.of_nat i) d2) by (intros Hc; apply Hd; right; exact Hc).
+        destruct (Hpost2 i x Hnth Hd2) as [Hn1 Hd1]. split; [|exact Hd1].
+        destruct (Nat.lt_ge_cases i (List.length M)) as [Hlt|Hge].
+        { rewrite nth_error_app1 in Hn1 by exact Hlt. exact Hn1. }
+        { rewrite nth_error_app2 in Hn1 by exact Hge.
+          destruct (i - List.length M) as [|m] eqn:Em; [unfold k in *; lia|].
+          simpl in Hn1. destruct m; discriminate. }
+    + destruct (IH Hwff n M d ltac:(lia) Hp) as (d' & Hr & Hpost).
+      destruct (enc_f bk f M) as [jf M'] eqn:E; simpl in *.
+      exists d'. split; [|exact Hpost]. intros rest.
+      rewrite (own_event_typed tag jf Hres), app_nil_r. apply Hr.
+  - intros _ n M d _ _. exists d; split; [reflexivity|apply rpost_refl].
+  - intros v IHv r IHr Hwf n M d Hn Hp. simpl in Hwf, Hn.
+    apply andb_true_iff in Hwf; destruct Hwf as [Hwv Hwr].
+    destruct (IHv Hwv n M d ltac:(lia) Hp) as (d1 & Hr1 & Hpost1).
+    destruct (IHr Hwr n _ d1 ltac:(lia) (rpre_post _ _ _ _ _ Hp Hpost1)) as (d2 & Hr2 & Hpost2).
+    rewrite enc_l_eq. simpl fst; simpl snd. exists d2. split.
+    + intros rest. simpl. rewrite <- app_assoc, Hr1, Hr2. reflexivity.
+    + exact (rpost_trans _ _ _ _ _ _ Hpost1 Hpost2).
+  - intros _ n M d _ _. exists d; split; [reflexivity|apply rpost_refl].
+  - intros k v IHv r IHr Hwf n M d Hn Hp. simpl in Hwf, Hn.
+    apply andb_true_iff in Hwf; destruct Hwf as [Hwv Hwr].
+    destruct (IHv Hwv n M d ltac:(lia) Hp) as (d1 & Hr1 & Hpost1).
+    destruct (IHr Hwr n _ d1 ltac:(lia) (rpre_post _ _ _ _ _ Hp Hpost1)) as (d2 & Hr2 & Hpost2).
+    rewrite enc_f_eq. simpl fst; simpl snd. exists d2. split.
+    + intros rest. simpl. rewrite <- app_assoc, Hr1, Hr2. reflexivity.
+    + exact (rpost_trans _ _ _ _ _ _ Hpost1 Hpost2).
+Qed.
+
+Theorem ref_after_val : forall v, wf v = true -> refs_ok [] (hook_events (encode bk v)) = true.
+Proof.
+  intros v Hwf. unfold encode.
+  destruct (proj1 refs_all v Hwf (vsize v) [] [] (le_n _)) as (d' & Hr & _).
+  - intros i x Hn. destruct i; discriminate.
+  - specialize (Hr []). rewrite app_nil_r in Hr. rewrite Hr. reflexivity.
+Qed.
+End Refs.
+
+(* what refs_ok means *)
+Lemma refs_ok_sound : forall evs done, refs_ok done evs = true ->
+  forall pre k post, evs = pre ++ (false, k) :: post -> In k done \/ In (true, k) pre.
+Proof.
+  induction evs as [|[b k0] r IH]; intros done H pre k post E.
+  - destruct pre; discriminate.
+  - destruct pre as [|e pre'].
+    + simpl in E. inversion E; subst. simpl in H. apply andb_true_iff in H. destruct H as [H _].
+      apply existsb_exists in H. destruct H as (y & Hy & Hey). apply Z.eqb_eq in Hey. subst. left; exact Hy.
+    + simpl in E. inversion E; subst. destruct b; simpl in H.
+      * destruct (IH _ H pre' k post eq_refl) as [[Hk|Hk]|Hk].
+        { subst. right; left; reflexivity. }
+        { left; exact Hk. }
+        { right; right; exact Hk. }
+      * apply andb_true_iff in H. destruct H as [_ H].
+        destruct (IH _ H pre' k post eq_refl) as [Hk|Hk]; [left; exact Hk|right; right; exact Hk].
+Qed.
+
+(* ---------- value equality through canonical forms ---------- *)
+Lemma periodic_eqb_spec : forall a b, periodic_eqb a b = true <->
+  periodic_canon (fst a) (snd a) = periodic_canon (fst b) (snd b).
+Proof.
+  intros [va pa] [vb pb]; unfold periodic_eqb, periodic_canon; simpl. split.
+  - intros H. apply andb_true_iff in H. destruct H as [H1 H2].
+    apply Z.eqb_eq in H1. apply Z.eqb_eq in H2. subst. rewrite H1. reflexivity.
+  - intros H. inversion H as [[H1 H2]]. subst. rewrite H1, !Z.eqb_refl. reflexivity.
+Qed.
+
+Theorem periodic_eq_hash : forall (h : Z * Z -> Z) a b,
+  periodic_eqb a b = true -> periodic_hash h a = periodic_hash h b.
+Proof. intros h a b H. apply periodic_eqb_spec in H. unfold periodic_hash. rewrite H. reflexivity. Qed.
+
+(* values that differ by a multiple of the period are equal (so they hash alike) *)
+Theorem periodic_shift_eq : forall value period n, period <> 0%Z ->
+  periodic_eqb (value + n * period, period)%Z (value, period) = true.
+Proof.
+  intros value period n Hp. apply periodic_eqb_spec. unfold periodic_canon; simpl.
+  rewrite Z.mod_add by exact Hp. reflexivity.
+Qed.
+
+(* the stored value is already canonical: re-wrapping changes nothing *)
+Theorem periodic_canon_idem : forall value period, period <> 0%Z ->
+  periodic_canon (fst (periodic_canon value period)) period = periodic_canon value period.
+Proof. intros value period Hp. unfold periodic_canon; simpl. rewrite Z.mod_mod by exact Hp. reflexivity. Qed.
+
+Theorem value_eq_hash : forall (C V : Type) (ceq : C -> C -> bool) (veq : V -> V -> bool) (h : C * V -> Z),
+  (forall x y, ceq x y = true -> x = y) -> (forall x y, veq x y = true -> x = y) ->
+  forall a b, ve_eqb ceq veq a b = true -> ve_hash h a = ve_hash h b.
+Proof.
+  intros C V ceq veq h Hc Hv [ca va] [cb vb] H. unfold ve_eqb in H; simpl in H.
+  apply andb_true_iff in H. destruct H as [H1 H2]. apply Hc in H1. apply Hv in H2. subst. reflexivity.
+Qed.
+
+(* ---------- strict total orders given by boolean tests ---------- *)
+Record sto {A : Type} (ltb eqb : A -> A -> bool) : Prop := mkSto {
+  sto_eq : forall a b, eqb a b = true <-> a = b;
+  sto_irrefl : forall a, ltb a a = false;
+  sto_trans : forall a b c, ltb a b = true -> ltb b c = true -> ltb a c = true;
+  sto_total : forall a b, ltb a b = true \/ a = b \/ ltb b a = true }.
+
+Lemma sto_asym : forall A (ltb eqb : A -> A -> bool), sto ltb eqb ->
+  forall a b, ltb a b = true -> ltb b a = false.
+Proof.
+  intros A ltb eqb H a b Hab. destruct (ltb b a) eqn:Hba; [|reflexivity].
+  pose proof (sto_trans _ _ H a b a Hab Hba) as Haa. rewrite (sto_irrefl _ _ H) in Haa. discriminate.
+Qed.
+
+Lemma sto_eq_refl : forall A (ltb eqb : A -> A -> bool), sto ltb eqb -> forall a, eqb a a = true.
+Proof. intros A ltb eqb H a. apply (sto_eq _ _ H). reflexivity. Qed.
+
+Lemma sto_lt_neq : forall A (ltb eqb : A -> A -> bool), sto ltb eqb ->
+  forall a b, ltb a b = true -> eqb a b = false.
+Proof.
+  intros A ltb eqb H a b Hab. destruct (eqb a b) eqn:E; [|reflexivity].
+  apply (sto_eq _ _ H) in E. subst. rewrite (sto_irrefl _ _ H) in Hab. discriminate.
+Qed.
+
+Lemma sto_prod : forall A B (ltA eqA : A -> A -> bool) (ltB eqB : B -> B -> bool),
+  sto ltA eqA -> sto ltB eqB -> sto (lexp ltA eqA ltB) (eqp eqA eqB).
+Proof.
+  intros A B ltA eqA ltB eqB HA HB. constructor.
+  - intros [a1 a2] [b1 b2]; unfold eqp; simpl. split.
+    + intros H. apply andb_true_iff in H. destruct H as [H1 H2].
+      apply (sto_eq _ _ HA) in H1. apply (sto_eq _ _ HB) in H2. subst. reflexivity.
+    + intros H. inversion H; subst. rewrite (sto_eq_refl _ _ _ HA), (sto_eq_refl _ _ _ HB). reflexivity.
+  - intros [a1 a2]; unfold lexp; simpl.
+    rewrite (sto_irrefl _ _ HA), (sto_irrefl _ _ HB), andb_false_r. reflexivity.
+  - intros [a1 a2] [b1 b2] [c1 c2]; unfold lexp; simpl. intros H1 H2.
+    apply orb_true_iff in H1. apply orb_true_iff in H2. apply orb_true_iff.
+    destruct H1 as [H1|H1]; destruct H2 as [H2|H2].
+    + left. exact (sto_trans _ _ HA _ _ _ H1 H2).
+    + apply andb_true_iff in H2. destruct H2 as [E _]. apply (sto_eq _ _ HA) in E. subst. left; exact H1.
+    + apply andb_true_iff in H1. destruct H1 as [E _]. apply (sto_eq _ _ HA) in E. subst. left; exact H2.
+    + apply andb_true_iff in H1. destruct H1 as [E1 L1]. apply andb_true_iff in H2. destruct H2 as [E2 L2].
+      apply (sto_eq _ _ HA) in E1. apply (sto_eq _ _ HA) in E2. subst. right.
+      rewrite (sto_eq_refl _ _ _ HA). simpl. exact (sto_trans _ _ HB _ _ _ L1 L2).
+  - intros [a1 a2] [b1 b2]; unfold lexp; simpl.
+    destruct (sto_total _ _ HA a1 b1) as [H|[H|H]].
+    + left. rewrite H. reflexivity.
+    + subst. rewrite (sto_irrefl _ _ HA), (sto_eq_refl _ _ _ HA). simpl.
+      destruct (sto_total _ _ HB a2 b2) as [H|[H|H]].
+      * left; exact H.
+      * subst. right; left; reflexivity.
+      * right; right; exact H.
+    + right; right. rewrite H. reflexivity.
+Qed.
+
+Lemma sto_Z : sto Z.ltb Z.eqb.
+Proof.
+  constructor.
+  - intros a b; apply Z.eqb_eq.
+  - intros a; apply Z.ltb_irrefl.
+  - intros a b c H1 H2. apply Z.ltb_lt in H1. apply Z.ltb_lt in H2. apply Z.ltb_lt. lia.
+  - intros a b. destruct (Z.lt_trichotomy a b) as [H|[H|H]].
+    + left; apply Z.ltb_lt; exact H.
+    + right; left; exact H.
+    + right; right; apply Z.ltb_lt; exact H.
+Qed.
+
+Lemma zlist_eqb_eq : forall a b, zlist_eqb a b = true <-> a = b.
+Proof.
+  induction a as [|x r IH]; intros [|y s]; simpl; split; intros H; try discriminate; try reflexivity.
+  - apply andb_true_iff in H. destruct H as [H1 H2]. apply Z.eqb_eq in H1. apply IH in H2. subst. reflexivity.
+  - inversion H; subst. rewrite Z.eqb_refl. simpl. apply IH. reflexivity.
+Qed.
+
+Lemma sto_lex : sto lex_ltb zlist_eqb.
+Proof.
+  constructor.
+  - exact zlist_eqb_eq.
+  - induction a as [|x r IH]; simpl; [reflexivity|].
+    rewrite Z.ltb_irrefl, Z.eqb_refl, IH. reflexivity.
+  - induction a as [|x r IH]; intros [|y s] [|z t]; simpl; intros H1 H2; try discriminate; try reflexivity.
+    apply orb_true_iff in H1. apply orb_true_iff in H2. apply orb_true_iff.
+    destruct H1 as [H1|H1]; destruct H2 as [H2|H2].
+    + left. apply Z.ltb_lt in H1. apply Z.ltb_lt in H2. apply Z.ltb_lt. lia.
+    + apply andb_true_iff in H2. destruct H2 as [E _]. apply Z.eqb_eq in E. subst. left; exact H1.
+    + apply andb_true_iff in H1. destruct H1 as [E _]. apply Z.eqb_eq in E. subst. left; exact H2.
+    + apply andb_true_iff in H1. destruct H1 as [E1 L1]. apply andb_true_iff in H2. destruct H2 as [E2 L2].
+      apply Z.eqb_eq in E1. apply Z.eqb_eq in E2. subst. right. rewrite Z.eqb_refl. simpl.
+      exact (IH _ _ L1 L2).
+  - induction a as [|x r IH]; intros [|y s]; simpl.
+    + right; left; reflexivity.
+    + left; reflexivity.
+    + right; right; reflexivity.
+    + destruct (Z.lt_trichotomy x y) as [H|[H|H]].
+      * left. apply Z.ltb_lt in H. rewrite H. reflexivity.
+      * subst. rewrite Z.ltb_irrefl, Z.eqb_refl. simpl.
+        destruct (IH s) as [H|[H|H]].
+        { left; exact H. }
+        { subst. right; left; reflexivity. }
+        { right; right; exact H. }
+      * right; right. apply Z.ltb_lt in H. rewrite H. reflexivity.
+Qed.
+
+(* ---------- Qid._cmp_tuple ---------- *)
+Definition ck (a : qid) : list Z * (list Z * (list Z * Z)) := (q_tname a, (q_trepr a, (q_key a, q_dim a))).
+Definition ck_ltb := lexp lex_ltb zlist_eqb (lexp lex_ltb zlist_eqb (lexp lex_ltb zlist_eqb Z.ltb)).
+Definition ck_eqb := eqp zlist_eqb (eqp zlist_eqb (eqp zlist_eqb Z.eqb)).
+
+Lemma sto_ck : sto ck_ltb ck_eqb.
+Proof. repeat apply sto_prod; first [exact sto_lex | exact sto_Z]. Qed.
+
+Lemma cmp_ltb_ck : forall a b, cmp_ltb a b = ck_ltb (ck a) (ck b).
+Proof. reflexivity. Qed.
+
+Lemma cmp_eqb_ck : forall a b, cmp_eqb a b = ck_eqb (ck a) (ck b).
+Proof. intros a b. unfold cmp_eqb, ck_eqb, eqp, ck; simpl. rewrite !andb_assoc. reflexivity. Qed.
+
+Theorem qid_order_total : forall a b c : qid,
+  (cmp_ltb a b = true \/ cmp_eqb a b = true \/ cmp_ltb b a = true) /\
+  (cmp_ltb a b = true -> cmp_ltb b a = false /\ cmp_eqb a b = false) /\
+  (cmp_eqb a b = true <-> ck a = ck b) /\
+  (cmp_ltb a a = false) /\
+  (cmp_ltb a b = true -> cmp_ltb b c = true -> cmp_ltb a c = true).
+Proof.
+  intros a b c. rewrite !cmp_ltb_ck, !cmp_eqb_ck. pose proof sto_ck as H. repeat split.
+  - destruct (sto_total _ _ H (ck a) (ck b)) as [L|[E|G]].
+    + left; exact L.
+    + right; left. apply (sto_eq _ _ H). exact E.
+    + right; right; exact G.
+  - exact (sto_asym _ _ _ H _ _ H0).
+  - exact (sto_lt_neq _ _ _ H _ _ H0).
+  - apply (sto_eq _ _ H).
+  - apply (sto_eq _ _ H).
+  - apply (sto_irrefl _ _ H).
+  - apply (sto_trans _ _ H).
+Qed.
+
+(* ---------- the order the qubit classes implement (family fast paths + _cmp_tuple) ---------- *)
+Definition fk (a : qid) : list Z * Z := (q_key a, q_dim a).
+
+Lemma sto_fk : sto (lexp lex_ltb zlist_eqb Z.ltb) (eqp zlist_eqb Z.eqb).
+Proof. apply sto_prod; [exact sto_lex|exact sto_Z]. Qed.
+Lemma sto_ty : sto ty_ltb ty_eqb.
+Proof. apply sto_prod; exact sto_lex. Qed.
+
+Lemma fam_ltb_fk : forall a b, fam_ltb a b = lexp lex_ltb zlist_eqb Z.ltb (fk a) (fk b).
+Proof. reflexivity. Qed.
+Lemma fam_eqb_fk : forall a b, fam_eqb a b = eqp zlist_eqb Z.eqb (fk a) (fk b).
+Proof. reflexivity. Qed.
+
+Lemma same_fam_sym : forall a b, same_fam a b = same_fam b a.
+Proof.
+  intros a b. unfold same_fam. destruct (Z.eqb (q_fam a) (q_fam b)) eqn:E.
+  - apply Z.eqb_eq in E. rewrite E, Z.eqb_refl. reflexivity.
+  - rewrite Z.eqb_sym, E, !andb_false_r. reflexivity.
+Qed.
+
+Lemma same_fam_trans : forall a b c, same_fam a b = true -> same_fam b c = true -> same_fam a c = true.
+Proof.
+  intros a b c H1 H2. unfold same_fam in *.
+  apply andb_true_iff in H1. destruct H1 as [P1 E1]. apply andb_true_iff in H2. destruct H2 as [P2 E2].
+  apply Z.eqb_eq in E1. apply Z.eqb_eq in E2. rewrite P1. simpl. apply Z.eqb_eq. congruence.
+Qed.
+
+(* totality and consistency with equality hold pairwise, for any mix of classes *)
+Theorem qid_mixed_total : forall a b : qid,
+  (qid_ltb a b = true \/ qid_eqb a b = true \/ qid_ltb b a = true) /\
+  (qid_ltb a b = true -> qid_ltb b a = false /\ qid_eqb a b = false) /\
+  (qid_eqb a b = true -> qid_ltb a b = false /\ qid_ltb b a = false) /\
+  (qid_eqb a b = qid_eqb b a).
+Proof.
+  intros a b. unfold qid_ltb, qid_eqb. rewrite (same_fam_sym b a).
+  destruct (same_fam a b).
+  - rewrite !fam_ltb_fk, !fam_eqb_fk. pose proof sto_fk as H. repeat split.
+    + destruct (sto_total _ _ H (fk a) (fk b)) as [L|[E|G]].
+      * left; exact L.
+      * right; left. apply (sto_eq _ _ H). exact E.
+      * right; right; exact G.
+    + exact (sto_asym _ _ _ H _ _ H0).
+    + exact (sto_lt_neq _ _ _ H _ _ H0).
+    + apply (sto_eq _ _ H) in H0. rewrite H0. apply (sto_irrefl _ _ H).
+    + apply (sto_eq _ _ H) in H0. rewrite H0. apply (sto_irrefl _ _ H).
+    + destruct (eqp zlist_eqb Z.eqb (fk a) (fk b)) eqn:E.
+      * apply (sto_eq _ _ H) in E. rewrite E. symmetry. apply (sto_eq_refl _ _ _ H).
+      * destruct (eqp zlist_eqb Z.eqb (fk b) (fk a)) eqn:E2; [|reflexivity].
+        apply (sto_eq _ _ H) in E2. rewrite E2 in E. rewrite (sto_eq_refl _ _ _ H) in E. discriminate.
+  - rewrite !cmp_ltb_ck, !cmp_eqb_ck. pose proof sto_ck as H. repeat split.
+    + destruct (sto_total _ _ H (ck a) (ck b)) as [L|[E|G]].
+      * left; exact L.
+      * right; left. apply (sto_eq _ _ H). exact E.
+      * right; right; exact G.
+    + exact (sto_asym _ _ _ H _ _ H0).
+    + exact (sto_lt_neq _ _ _ H _ _ H0).
+    + apply (sto_eq _ _ H) in H0. rewrite H0. apply (sto_irrefl _ _ H).
+    + apply (sto_eq _ _ H) in H0. rewrite H0. apply (sto_irrefl _ _ H).
+    + destruct (ck_eqb (ck a) (ck b)) eqn:E.
+      * apply (sto_eq _ _ H) in E. rewrite E. symmetry. apply (sto_eq_refl _ _ _ H).
+      * destruct (ck_eqb (ck b) (ck a)) eqn:E2; [|reflexivity].
+        apply (sto_eq _ _ H) in E2. rewrite E2 in E. rewrite (sto_eq_refl _ _ _ H) in E. discriminate.
+Qed.
+
+(* transitivity needs the class table to be convex; the check evaluates fam_table_ok on the registered classes *)
+Lemma cmp_ty : forall a b, cmp_ltb a b = ty_ltb (ty a) (ty b) || (ty_eqb (ty a) (ty b) && fam_ltb a b).
+Proof.
+  intros a b. unfold cmp_ltb, ty_ltb, ty_eqb, fam_ltb, lexp, eqp, ty; simpl.
+  destruct (lex_ltb (q_tname a) (q_tname b)), (zlist_eqb (q_tname a) (q_tname b)),
+           (lex_ltb (q_trepr a) (q_trepr b)), (zlist_eqb (q_trepr a) (q_trepr b)); reflexivity.
+Qed.
+
+Section MixedOrder.
+Variable pop : qid -> Prop.
+Hypothesis Hfam_ty : forall a b, pop a -> pop b -> ty a = ty b -> q_fam a = q_fam b.
+Hypothesis Hconv : forall a b c, pop a -> pop b -> pop c -> same_fam a b = true -> same_fam a c = false ->
+  ty_ltb (ty a) (ty c) = ty_ltb (ty b) (ty c) /\ ty_ltb (ty c) (ty a) = ty_ltb (ty c) (ty b).
+
+Lemma diff_fam_diff_ty : forall a b, pop a -> pop b -> Z.ltb 0 (q_fam a) = true -> same_fam a b = false ->
+  ty_eqb (ty a) (ty b) = false.
+Proof.
+  intros a b Pa Pb Hpos Hs. destruct (ty_eqb (ty a) (ty b)) eqn:E; [|reflexivity].
+  apply (sto_eq _ _ sto_ty) in E. pose proof (Hfam_ty a b Pa Pb E) as Hf.
+  unfold same_fam in Hs. rewrite Hpos, Hf, Z.eqb_refl in Hs. discriminate.
+Qed.
+
+Lemma same_fam_pos : forall a b, same_fam a b = true -> Z.ltb 0 (q_fam a) = true /\ Z.ltb 0 (q_fam b) = true.
+Proof.
+  intros a b H. unfold same_fam in H. apply andb_true_iff in H. destruct H as [P E].
+  apply Z.eqb_eq in E. split; [exact P|rewrite <- E; exact P].
+Qed.
+
+Lemma cmp_of_ty : forall a b, ty_eqb (ty a) (ty b) = false -> cmp_ltb a b = ty_ltb (ty a) (ty b).
+Proof. intros a b E. rewrite cmp_ty, E. simpl. apply orb_false_r. Qed.
+
+Theorem qid_mixed_trans : forall a b c, pop a -> pop b -> pop c ->
+  qid_ltb a b = true -> qid_ltb b c = true -> qid_ltb a c = true.
+Proof.
+  intros a b c Pa Pb Pc. unfold qid_ltb.
+  destruct (same_fam a b) eqn:Sab; destruct (same_fam b c) eqn:Sbc.
+  - rewrite (same_fam_trans _ _ _ Sab Sbc). rewrite !fam_ltb_fk. apply (sto_trans _ _ sto_fk).
+  - assert (Sac : same_fam a c = false).
+    { destruct (same_fam a c) eqn:S; [|reflexivity].
+      rewrite same_fam_sym in Sab. rewrite (same_fam_trans _ _ _ Sab S) in Sbc. discriminate. }
+    rewrite Sac. intros _ Hbc.
+    destruct (same_fam_pos _ _ Sab) as [Pa0 Pb0].
+    rewrite (cmp_of_ty _ _ (diff_fam_diff_ty b c Pb Pc Pb0 Sbc)) in Hbc.
+    rewrite (cmp_of_ty _ _ (diff_fam_diff_ty a c Pa Pc Pa0 Sac)).
+    destruct (Hconv a b c Pa Pb Pc Sab Sac) as [H1 _]. rewrite H1. exact Hbc.
+  - assert (Sac : same_fam a c = false).
+    { destruct (same_fam a c) eqn:S; [|reflexivity].
+      rewrite (same_fam_sym b c) in Sbc. rewrite (same_fam_trans _ _ _ S Sbc) in Sab. discriminate. }
+    rewrite Sac. intros Hab _.
+    destruct (same_fam_pos _ _ Sbc) as [Pb0 Pc0].
+    assert (Sba : same_fam b a = false) by (rewrite same_fam_sym; exact Sab).
+    assert (Sca : same_fam c a = false) by (rewrite same_fam_sym; exact Sac).
+    assert (Eab : ty_eqb (ty a) (ty b) = false).
+    { destruct (ty_eqb (ty a) (ty b)) eqn:E; [|reflexivity].
+      apply (sto_eq _ _ sto_ty) in E. pose proof (diff_fam_diff_ty b a Pb Pa Pb0 Sba) as E2.
+      rewrite E in E2. rewrite (sto_eq_refl _ _ _ sto_ty) in E2. discriminate. }
+    assert (Eac : ty_eqb (ty a) (ty c) = false).
+    { destruct (ty_eqb (ty a) (ty c)) eqn:E; [|reflexivity].
+      apply (sto_eq _ _ sto_ty) in E. pose proof (diff_fam_diff_ty c a Pc Pa Pc0 Sca) as E2.
+      rewrite E in E2. rewrite (sto_eq_refl _ _ _ sto_ty) in E2. discriminate. }
+    rewrite (cmp_of_ty _ _ Eab) in Hab. rewrite (cmp_of_ty _ _ Eac).
+    destruct (Hconv b c a Pb Pc Pa Sbc Sba) as [_ H2]. rewrite <- H2. exact Hab.
+  - destruct (same_fam a c) eqn:Sac.
+    + intros Hab Hbc. exfalso.
+      destruct (same_fam_pos _ _ Sac) as [Pa0 Pc0].
+      assert (Scb : same_fam c b = false) by (rewrite same_fam_sym; exact Sbc).
+      pose proof (diff_fam_diff_ty a b Pa Pb Pa0 Sab) as Eab.
+      pose proof (diff_fam_diff_ty c b Pc Pb Pc0 Scb) as Ecb.
+      assert (Ebc : ty_eqb (ty b) (ty c) = false).
+      { destruct (ty_eqb (ty b) (ty c)) eqn:E; [|reflexivity].
+        apply (sto_eq _ _ sto_ty) in E. rewrite E in Ecb. rewrite (sto_eq_refl _ _ _ sto_ty) in Ecb. discriminate. }
+      rewrite (cmp_of_ty _ _ Eab) in Hab. rewrite (cmp_of_ty _ _ Ebc) in Hbc.
+      destruct (Hconv a c b Pa Pc Pb Sac Sab) as [H1 _]. rewrite H1 in Hab.
+      rewrite (sto_asym _ _ _ sto_ty _ _ Hbc) in Hab. discriminate.
+    + rewrite !cmp_ltb_ck. apply (sto_trans _ _ sto_ck).
+Qed.
+End MixedOrder.
+
+(* the executable test of the two hypotheses on a concrete class table *)
+Lemma fam_table_ok_rows : forall tbl, fam_table_ok tbl = true ->
+  forall r1 r2 r3, In r1 tbl -> In r2 tbl -> In r3 tbl -> row_check r1 r2 r3 = true.
+Proof.
+  intros tbl H r1 r2 r3 I1 I2 I3. unfold fam_table_ok in H.
+  rewrite forallb_forall in H. specialize (H r1 I1).
+  rewrite forallb_forall in H. specialize (H r2 I2).
+  rewrite forallb_forall in H. exact (H r3 I3).
+Qed.
+
+Theorem qid_mixed_trans_table : forall tbl, fam_table_ok tbl = true ->
+  forall a b c, In (qrow a) tbl -> In (qrow b) tbl -> In (qrow c) tbl ->
+  qid_ltb a b = true -> qid_ltb b c = true -> qid_ltb a c = true.
+Proof.
+  intros tbl Hok. apply (qid_mixed_trans (fun a => In (qrow a) tbl)).
+  - intros a b Pa Pb E.
+    pose proof (fam_table_ok_rows tbl Hok _ _ _ Pa Pb Pa) as Hc. unfold row_check in Hc.
+    apply andb_true_iff in Hc. destruct Hc as [Hc _].
+    change (row_ty (qrow a)) with (ty a) in Hc. change (row_ty (qrow b)) with (ty b) in Hc.
+    rewrite E, (sto_eq_refl _ _ _ sto_ty) in Hc. simpl in Hc. apply Z.eqb_eq in Hc. exact Hc.
+  - intros a b c Pa Pb Pc Sab Sac.
+    pose proof (fam_table_ok_rows tbl Hok _ _ _ Pa Pb Pc) as Hc. unfold row_check in Hc.
+    apply andb_true_iff in Hc. destruct Hc as [_ Hc].
+    change (rows_same_fam (qrow a) (qrow b)) with (same_fam a b) in Hc.
+    change (rows_same_fam (qrow a) (qrow c)) with (same_fam a c) in Hc.
+    rewrite Sab, Sac in Hc. simpl in Hc. apply andb_true_iff in Hc. destruct Hc as [H1 H2].
+    apply Bool.eqb_prop in H1. apply Bool.eqb_prop in H2. split; assumption.
+Qed.
+
+(* without the class-table condition the order is NOT transitive: a Qid class whose name sorts between
+   "LineQid" and "LineQubit" (here "LineQjx") gives a cycle *)
+Definition w_lineqid : qid := mkQid [76;105;110;101;81;105;100]%Z [1]%Z [9]%Z 3 1.            (* LineQid(9, dimension=3) *)
+Definition w_foreign : qid := mkQid [76;105;110;101;81;106;120]%Z [2]%Z [0]%Z 2 0.            (* LineQjx(0) *)
+Definition w_linequbit : qid := mkQid [76;105;110;101;81;117;98;105;116]%Z [3]%Z [1]%Z 2 1.   (* LineQubit(1) *)
+Theorem qid_mixed_trans_refuted : exists a b c,
+  qid_ltb a b = true /\ qid_ltb b c = true /\ qid_ltb a c = false.
+Proof. exists w_lineqid, w_foreign, w_linequbit. repeat split; reflexivity. Qed.
